@@ -27,6 +27,7 @@ func WorkerMain(hs map[string]Harness) {
 	replay := flag.String("replay", "", "replay file")
 	trace := flag.Bool("trace", false, "print the trace when replaying")
 	maxv := flag.Int("maxviol", 3, "stop after this many distinct violations")
+	knownFile := flag.String("known", "", "JSON file with a list of signatures of open known findings")
 	hashlog := flag.String("hashlog", "", "file for one line per run: run, trace hash, steps (determinism self-test)")
 	flag.Parse()
 	h := hs[*prop]
@@ -80,7 +81,17 @@ func WorkerMain(hs map[string]Harness) {
 		}
 		os.Exit(0)
 	}
-	res := RunWorker(h, WorkerOpts{Seed: *seed, From: *from, To: *to, Tier: *tier, Budget: *budget, OutDir: *out, MaxViol: *maxv, HashFile: *hashes, RaceCheck: RaceCheck, HashLog: *hashlog})
+	known := map[string]bool{}
+	if *knownFile != "" {
+		var sigs []string
+		if b, err := os.ReadFile(*knownFile); err == nil {
+			json.Unmarshal(b, &sigs)
+		}
+		for _, s := range sigs {
+			known[s] = true
+		}
+	}
+	res := RunWorker(h, WorkerOpts{Known: known, Seed: *seed, From: *from, To: *to, Tier: *tier, Budget: *budget, OutDir: *out, MaxViol: *maxv, HashFile: *hashes, RaceCheck: RaceCheck, HashLog: *hashlog})
 	jb, _ := json.Marshal(res)
 	fmt.Println(string(jb))
 	if res.Trouble != "" {
